@@ -234,6 +234,9 @@ func runShardChild(a childArgs) error {
 			var o string
 			if err != nil {
 				o = "(QError 1)"
+				if os.Getenv("VERIF_DEBUG") != "" {
+					fmt.Fprintf(os.Stderr, "search error: %v\n  request: %s\n", err, rq.coq())
+				}
 			} else {
 				o, err = pRows(res, len(rq.sel) > 0)
 				if err != nil {
